@@ -291,7 +291,11 @@ void WorkThread::cleanup()
     }
 
     TBOX_VERIF_SCHED_POINT("work_thread.cleanup_before_stop_flag");
-    d_->stop_flag = true;
+    {
+        //! 停止标记必须在锁内修改，否则工作线程可能在判断完条件、进入等待之前错过通知
+        std::lock_guard<std::mutex> lg(d_->lock);
+        d_->stop_flag = true;
+    }
     d_->cond_var.notify_all();
 
     d_->work_thread.join();
